@@ -423,7 +423,9 @@ func run(e *vlib.Env) vlib.Result {
 			if len(c.foreign) > 0 {
 				res.Fail("foreign-reply", "caller of command %s received replies that do not belong to it: %v (own: %v); %s", c.id, c.foreign, c.got, spec)
 			}
-			if (c.behaviour == "drain" || c.behaviour == "single") && len(c.got) < map[bool]int{true: 1, false: c.expect}[c.behaviour == "single"] && c.timeouts == 0 {
+			// with ListenForReplyTimeout the listening may legitimately end before the last reply (slow machine): completeness is
+			// demanded only without a time-out
+			if !useTimeout && (c.behaviour == "drain" || c.behaviour == "single") && len(c.got) < map[bool]int{true: 1, false: c.expect}[c.behaviour == "single"] && c.timeouts == 0 {
 				res.Fail("reply-missing", "caller %s (%s) received %d of %d expected replies: %v; %s", c.id, c.behaviour, len(c.got), c.expect, c.got, spec)
 			}
 			if finished[c.id] != 1 {
